@@ -221,7 +221,7 @@ def as_samples_wrong(enc_expr, rows, ns):
 
 
 def check_energies(ctx, r, B, R, target, site, labels_used, all_labels, dom, mirror, oracle_src='poly_value(t, row)',
-                   oracle=None, vartype_name='INTEGER', allow_float=True, degenerate=None):
+                   oracle=None, vartype_name='INTEGER', allow_float=True, degenerate=None, all_dtypes=False, nrows=None, exact=None):
     """one target object (expression `target` in recipe R): every encoding of a few rows.
     `mirror(rows_delivered, labels_delivered)` -> driver line computing the energies in the model;
     `oracle(t, row)` -> exact Fraction from reported coefficients."""
@@ -232,11 +232,13 @@ def check_energies(ctx, r, B, R, target, site, labels_used, all_labels, dom, mir
         extras = extras + [l for l in LABELS if l not in all_labels][:1]
     sample_labels = list(labels_used) + (extras if r.random() < .5 else [l for l in extras if l in all_labels])
     sample_labels = perm_of(r, sample_labels)
-    rows = sample_rows(r, labels_used, dom, [l for l in sample_labels if l not in labels_used])
+    rows = sample_rows(r, labels_used, dom, [l for l in sample_labels if l not in labels_used], k=nrows)
+    if exact is not None:
+        rows = [row for row in rows if exact(t, row)]   # keep float64 arithmetic exact (cut otherwise)
     expect = [oracle(t, row) for row in rows]
     shape = degenerate or ('no variables' if not labels_used else 'no interactions' if not any(True for _ in t.iter_quadratic()) else 'general') \
         if hasattr(t, 'iter_quadratic') else (degenerate or 'general')
-    for name, enc_expr, info in encodings(r, rows, sample_labels, vartype_name, allow_float):
+    for name, enc_expr, info in encodings(r, rows, sample_labels, vartype_name, allow_float, all_dtypes=all_dtypes):
         ctx.tick(f'{site}:{name}')
         ic = shape if shape != 'general' else f'general; encoding={name}' + (f' ({info["orders"]})' if 'orders' in info else '')
         repro = R.script(textwrap.dedent(f'''
@@ -434,6 +436,76 @@ def case_cqm(ctx, r, B):
                 ctx.fail('property', site.replace('energies', 'energy'), 'empty 1-d array-like on a variable-free model',
                          f'energy([]) = {e} but the expression is the constant {F(t.offset)}',
                          repro=R.script(f't = {target}\nassert F(t.energy([])) == F(t.offset), (t.energy([]), t.offset)\n'))
+
+
+# ------------------------------------------------------------------------------------------ wide integer values
+
+WIDE = sorted(set([0, 1, -1, 11, 12, -12, 127, 128, -128, 181, 182, -182, 255, 256, 32767, 32768, -32768, 46340, 46341, -46341, 65535, 65536]
+                  + [s * (2 ** k + d) for k in range(2, 21) for d in (-1, 0, 1) for s in (1, -1)]))
+
+
+def exact_in_double(t, row):
+    """every term and every partial sum of the evaluation stays an integer multiple of 1/8 below 2^52"""
+    tot = abs(F(t.offset))
+    for v, b in t.iter_linear():
+        tot += abs(F(b) * F(row[v]))
+    for u, v, b in t.iter_quadratic():
+        tot += abs(F(b) * F(row[u]) * F(row[v]))
+    return tot * 8 < 2 ** 52
+
+
+def case_wide(ctx, r, B):
+    """INTEGER variables with wide bounds, sample values around powers of two and the int8/int16/int32 product boundaries,
+    every sample dtype: the pair product of two sample values must not be formed in the samples' integer type"""
+    R = Recipe()
+    n = r.choice([1, 2, 2, 3, 4])
+    labels = r.sample(LABELS, n)
+    kind = r.choice(['qm', 'cqm-objective', 'cqm-constraint', 'cqm-constraint'])
+    R.do('q = QM()')
+    vts = {}
+    for l in labels:
+        vts[l] = 'INTEGER' if r.random() < .85 else 'BINARY'
+        R.do(f'q.add_variable({vts[l]!r}, {l!r}' + (', lower_bound=-4194304, upper_bound=4194304)' if vts[l] == 'INTEGER' else ')'))
+        if r.random() < .7:
+            R.do(f'q.set_linear({l!r}, {fl(q8(r))})')
+    for _ in range(r.choice([1, 2, 3, 5])):
+        u, v = r.choice(labels), r.choice(labels)
+        if u == v and vts[u] != 'INTEGER':
+            continue
+        R.do(f'q.add_quadratic({u!r}, {v!r}, {fl(q8(r))})')
+    if r.random() < .7:
+        R.do(f'q.offset = {fl(q8(r))}')
+    dom = lambda l: (WIDE if r.random() < .8 else [-3, 0, 2, 7]) if vts[l] == 'INTEGER' else [0, 1]  # noqa
+    if kind == 'qm':
+        m = R['q']
+
+        def mirror(d_rows, d_labels):
+            l, a, o = qmb_tokens(m, r=r)
+            return f'cyenergies {l} {a} {o} {labs(m.variables)} {rows_tok(d_rows)} {labs(d_labels)}'
+        check_energies(ctx, r, B, R, 'q', 'QM.energies', labels, labels, dom, mirror, all_dtypes=True, nrows=r.choice([1, 2, 3]),
+                       exact=exact_in_double, degenerate='wide integer values')
+        return
+    R.do('c = CQM()')
+    extra = [l for l in LABELS if l not in labels][:1]
+    for l in extra:
+        R.do(f'c.add_variable("INTEGER", {l!r}, lower_bound=-4194304, upper_bound=4194304)')
+    if kind == 'cqm-objective':
+        R.do('c.set_objective(q)')
+        target, site = 'c.objective', 'CQM.objective.energies'
+    else:
+        R.do(f'c.add_constraint_from_model(q, {r.choice(["<=", ">=", "=="])!r}, {fl(q8(r))}, label="k")')
+        target, site = 'c.constraints["k"].lhs', 'CQM.constraint.lhs.energies'
+    c = R['c']
+    t = R.ev(target)
+    vts.update({l: 'INTEGER' for l in extra})
+
+    def mirror(d_rows, d_labels, t=t):
+        order = list(t.variables)
+        l, a, o = qmb_tokens(t, order=order, r=r)
+        vars_tok = ','.join(str(c.variables.index(v)) for v in order) or '-'
+        return f'exprenergies {vars_tok}|{l}|{a}|{o} {labs(c.variables)} {rows_tok(d_rows)} {labs(d_labels)}'
+    check_energies(ctx, r, B, R, target, site, list(t.variables), labels + extra, dom, mirror, all_dtypes=True,
+                   nrows=r.choice([1, 2, 3]), exact=exact_in_double, degenerate='wide integer values')
 
 
 # ------------------------------------------------------------------------------------------ DQM
@@ -653,7 +725,7 @@ def run(ctx):
                 'permuted columns, SampleSet, plain arrays); a case = one energies call or one as_samples call; non-trivial = the '
                 'model has variables and the call evaluates at least one row; distinct by (construction script, target, encoding)')
     for i in range(n):
-        kind = r.choice(['bqm', 'bqm', 'qm', 'qm', 'cqm', 'cqm', 'cqm', 'dqm', 'poly', 'as', 'as', 'as'])
+        kind = r.choice(['bqm', 'bqm', 'qm', 'qm', 'cqm', 'cqm', 'cqm', 'dqm', 'poly', 'as', 'as', 'as', 'wide', 'wide'])
         ctx.tick('model:' + kind)
         if kind == 'bqm':
             case_bqm(ctx, r, B)
@@ -665,6 +737,8 @@ def run(ctx):
             case_dqm(ctx, r, B, children)
         elif kind == 'poly':
             case_poly(ctx, r, B)
+        elif kind == 'wide':
+            case_wide(ctx, r, B)
         else:
             check_as_samples(ctx, r, B)
         if len([f for f in ctx.failures if f['kind'] == 'property']) >= 12:
